@@ -208,7 +208,12 @@ def build_jobs(tier, seed, kf_on):
     jobs = []
     ns = [1, 2] if tier == "quick" else [1, 2, 3]
     skipped = []
+    mark, exact_div = 0, False
     for ob in obligations():
+        for j in jobs[mark:]:
+            if exact_div:
+                j["int_div_exact"] = True  # "//" is translated to FLOOR(a / b): there the SQL integer division is not the user's "/" (accepted difference)
+        mark, exact_div = len(jobs), ob["op"] == "//"
         src = _pipeline(ob)
         if src is None or any(t in ob["expr"] for t in ("date", "_uniform", "any_value")):
             # dates / random numbers are outside every claim; any_value is documented as returning ANY member of the group (backends may differ)
@@ -264,6 +269,9 @@ def build_jobs(tier, seed, kf_on):
             elif sides:
                 jobs.append(simple.tv_job(f"{ob['op']} [{ob['expr']}] {sides[0][0]} vs polars @{n}", SCHEMA, rows, sides[0][1], pl_side, kf_on, tier, assume=assume,
                                           b_may_raise=True, max_paths=2000, wall_s=90))
+    for j in jobs[mark:]:
+        if exact_div:
+            j["int_div_exact"] = True
     return jobs
 
 
